@@ -160,7 +160,9 @@ CHECKS["C15"] = {
             "Oracles: process survives; peak live heap <= 64 MiB + 64 x payload bytes; afterwards a fresh peer is registered, a status request is answered within 30 s and (when the head did not move) the valid next block is inserted within 30 s. "
             "non-trivial = at least one message that is neither truncated nor random (it decodes at least partly); distinct by description digest. "
             "flood: 10241..10400 orphan blocks at distinct heights (batches of 50 / 200 / 1000) and / or as many confirms for unknown blocks at distinct heights, i.e. more than the 10240 heights either cache holds before it empties itself; "
-            "afterwards the liveness probes above, on a fresh connection and on the flooding connection itself.",
+            "afterwards the liveness probes above, on a fresh connection and on the flooding connection itself. "
+            "churn: 60..200 connections that complete the protocol handshake and are closed again (idle / after one request / after a garbage message / mixed); afterwards the node runs at most a handful of goroutines more than before "
+            "and its live heap grew by less than 16 KiB per closed connection.",
     "level_text": "Generated hostile inputs (byte streams, frames, structure-aware mutated protocol messages, absurd blocks / confirms / transactions) against the real transport and protocol manager, with survival, live-heap and liveness oracles; "
                   "exploration bounded by message count and mutation depth. Thorough tier adds coverage-guided native fuzzing of the frame reader.",
     "level_note": "Deadlock is decided by generous bounds (30 s on an otherwise idle node). Block requests spanning more than 200000 heights are excluded and counted: respBlocks then loops for minutes per request, "
@@ -171,6 +173,7 @@ CHECKS["C15"] = {
         {"name": "frames", "test": "TestC15Frames", "quick": {"checks": 250, "shards": 4, "timeout": 900}, "thorough": {"checks": 6000, "shards": 8, "timeout": 3400}},
         {"name": "messages", "test": "TestC15Messages", "quick": {"checks": 150, "shards": 8, "timeout": 900}, "thorough": {"checks": 4000, "shards": 16, "timeout": 3400}},
         {"name": "flood", "test": "TestC15Flood", "quick": {"checks": 2, "shards": 3, "timeout": 900}, "thorough": {"checks": 10, "shards": 6, "timeout": 3400}},
+        {"name": "churn", "test": "TestC15Churn", "quick": {"checks": 8, "shards": 2, "timeout": 900}, "thorough": {"checks": 100, "shards": 4, "timeout": 3400}},
         {"name": "fuzz", "fuzz": "FuzzFrameReader", "test": "FuzzFrameReader", "thorough": {"fuzztime": "180s", "workers": 16, "timeout": 600}},
     ],
 }
